@@ -225,11 +225,11 @@ def subjects(tier):
   # unsealed explicitly afterwards.
   for kind, ctor in (('object', "N(x=pg.Dict(p=[1]))"), ('object-nested', "N(x=N(x=pg.Dict(p=N(x=1))))"),
                      ('functor', "nf(a=pg.Dict(x=1))"), ('hyper', "NH(candidates=[1, pg.Dict(a=2)])"),
-                     ('dna', "ND([0, (1, [2])])")):
+                     ('dna', "ND([0, 1])")):
     if kind != 'object':
       add(f'class-sealed/{kind}', f"o = {ctor}")
     add(f'class-sealed/{kind}-unsealed-after', f"o = {ctor}\no.seal(False)")
-    add(f'class-sealed/{kind}-unsealed-after-in-dict', f"o = pg.Dict(k={ctor}, l=[{ctor}])\no.seal(False)")
+    add(f'class-sealed/{kind}-unsealed-after-in-dict', f"o = pg.Dict(k=[{ctor}])\no.seal(False)")
   # Further symbolic classes.
   add('wrapper/symbolized-class', "o = W(u=pg.Dict(a=1), v=[pg.Dict(b=Leaf([1]))])")
   add('hyper/floatv', "o = pg.floatv(0.0, 1.0)")
@@ -644,7 +644,7 @@ def drv_clone_fidelity(tier, seed):
                      _wit(src, ["b = _snap(root if 'root' in dir() else o)", 'try:\n  ' + stmt.replace('\n', '\n  ') + '\nexcept Exception: pass',
                                 "assert _snap(root if 'root' in dir() else o) == b"], snap=True))
           continue
-        rec.case(f'alias:{alias}/raises' + (f'/{_tname(env["o"])}' if alias.startswith('in-scope:') else ''),
+        rec.case(f'alias:{alias}/raises' + ('/dnaspec' if _tname(env['o']) == 'dnaspec' else ''),
                  (label, depth), False,
                  f'[{label}] {expr} raised {type(e).__name__}: {e}', _wit(src, [stmt]))
         continue
